@@ -8,7 +8,74 @@ let enc o u p id r l emd =
 
 let ok_key (ok, key) = str_of_bool ok ^ "|" ^ hex_of_bytes key
 
+(* SHA-2 / AES are parameters of the R5/R6 models: they are replayed from a tape recorded by the harness
+   (entries "md5hex(prim:arghex:...)=resulthex" separated by ';'); a query that is not on the tape is an error, so the
+   model has to ask for exactly the primitive applications the recorded computation made. *)
+let load_tape (t : string) : (string, string) Hashtbl.t =
+  let h = Hashtbl.create 64 in
+  if t <> "" then List.iter (fun e ->
+    match String.index_opt e '=' with
+    | Some i -> Hashtbl.replace h (String.sub e 0 i) (String.sub e (i + 1) (String.length e - i - 1))
+    | None -> failwith "bad tape entry") (String.split_on_char ';' t);
+  h
+
+let query h prim (args : n list list) : n list =
+  let k = Digest.to_hex (Digest.string (String.concat ":" (prim :: List.map hex_of_bytes args))) in
+  match Hashtbl.find_opt h k with
+  | Some v -> bytes_of_hex v
+  | None -> failwith ("primitive application not on the tape: " ^ prim)
+
+let opt_bytes s = if s = "!" then None else Some (bytes_of_hex s)
+let vres_key (v, key) = match v with VOk -> "ok|" ^ hex_of_bytes key | VNo -> "no" | VErr -> "err"
+let b = bytes_of_hex
+let aes_enc r o u oe ue perms p emd =
+  { eO = b o; eU = b u; eOE = b oe; eUE = b ue; ePerms = b perms; eL = n_of_int 256; eP = z_of_hex p;
+    eR = n_of_hex r; eEmd = bool_of_str emd; eID = [] }
+
+let dispatch_aes fn args = match fn, args with
+  | _, [] -> failwith "no tape"
+  | _, tape :: rest ->
+    let h = load_tape tape in
+    let h256 x = query h "h256" [x] and h384 x = query h "h384" [x] and h512 x = query h "h512" [x] in
+    let ce k iv d = query h "ce" [k; iv; d] and cd k iv d = query h "cd" [k; iv; d] in
+    let ee k blk = query h "ee" [k; blk] and ed k blk = query h "ed" [k; blk] in
+    (match fn, rest with
+     | "aes_hash6", [input; pw; u] ->
+       (match c_hashRev6 h256 h384 h512 ce (b input) (b pw) (b u) with Some x -> hex_of_bytes x | None -> "none")
+     | "s_alg2B", [input; pw; u] ->
+       (match alg2B h256 h384 h512 ce (b input) (b pw) (b u) with Some x -> hex_of_bytes x | None -> "none")
+     | "aes_vuser", [r; pw; prep; u; ue] ->
+       vres_key (c_validate_user_aes h256 h384 h512 ce cd (fun _ -> opt_bytes prep) (b pw) (aes_enc r "" u "" ue "" "0" "true"))
+     | "aes_vowner", [r; pw; prep; o; oe; u] ->
+       vres_key (c_validate_owner_aes h256 h384 h512 ce cd (fun _ -> opt_bytes prep) (b pw) (aes_enc r o u oe "" "" "0" "true"))
+     | "s_alg11", [r; pw; prep; u; ue] ->
+       (match alg11 h256 h384 h512 ce cd (fun _ -> opt_bytes prep) (n_of_hex r) (b pw) (b u) (b ue) with
+        | None -> "err" | Some (true, k) -> "ok|" ^ hex_of_bytes k | Some (false, _) -> "no")
+     | "s_alg12", [r; pw; prep; o; oe; u] ->
+       (match alg12 h256 h384 h512 ce cd (fun _ -> opt_bytes prep) (n_of_hex r) (b pw) (b o) (b oe) (b u) with
+        | None -> "err" | Some (true, k) -> "ok|" ^ hex_of_bytes k | Some (false, _) -> "no")
+     | "aes_calc", [r; upw; opw; ru; ro; fk] ->
+       (match c_calc_ou_aes h256 h384 h512 ce (n_of_hex r) (b upw) (b opw) (b ru) (b ro) (b fk) with
+        | None -> "none"
+        | Some (((u, o), ue), oe) -> String.concat "|" (List.map hex_of_bytes [u; o; ue; oe]))
+     | "s_alg89", [r; upw; uprep; opw; oprep; vsu; ksu; vso; kso; fk] ->
+       (match alg8 h256 h384 h512 ce (fun _ -> opt_bytes uprep) (n_of_hex r) (b upw) (b vsu) (b ksu) (b fk) with
+        | None -> "none"
+        | Some (u, ue) ->
+          (match alg9 h256 h384 h512 ce (fun _ -> opt_bytes oprep) (n_of_hex r) (b opw) (b vso) (b kso) u (b fk) with
+           | None -> "none"
+           | Some (o, oe) -> String.concat "|" (List.map hex_of_bytes [u; o; ue; oe])))
+     | "aes_wperms", [p; emd; fk] ->
+       (match c_write_perms ee (z_of_hex p) (bool_of_str emd) (b fk) with Some x -> hex_of_bytes x | None -> "none")
+     | "s_alg10", [p; emd; rnd; fk] -> hex_of_bytes (alg10 ee (z_of_hex p) (bool_of_str emd) (b rnd) (b fk))
+     | "aes_vperms", [perms; p; emd; fk] ->
+       (match c_validate_perms ed (aes_enc "5" "" "" "" "" perms p emd) (b fk) with VOk -> "ok" | VNo -> "no" | VErr -> "err")
+     | "s_alg13", [perms; p; emd; fk] -> str_of_bool (alg13 ed (b perms) (b fk) (z_of_hex p) (bool_of_str emd))
+     | _ -> failwith ("unknown function " ^ fn))
+
 let dispatch fn args = match fn, args with
+  | ("aes_hash6" | "s_alg2B" | "aes_vuser" | "aes_vowner" | "s_alg11" | "s_alg12" | "aes_calc" | "s_alg89"
+    | "aes_wperms" | "s_alg10" | "aes_vperms" | "s_alg13"), _ -> dispatch_aes fn args
   | "md5", [m] -> hex_of_bytes (md5 (bytes_of_hex m))
   | "rc4", [k; d] -> hex_of_bytes (rc4 (bytes_of_hex k) (bytes_of_hex d))
   | "encKey", [pw; o; p; id; r; l; emd] -> hex_of_bytes (c_encKey (bytes_of_hex pw) (enc o "" p id r l emd))
